@@ -267,6 +267,11 @@ def run(ctx):
     from .c16 import rule_attr_lookup
     rule_attr_lookup(ctx, mir, rid="R07.6")
 
+    # ------------------------------------------------------------------ R07.7 (shared with C03 R03.7)
+    # content operations are no-ops exactly on elements without content: a self-closing foreign element must stay one
+    from .c03 import rule_self_closing_ns
+    rule_self_closing_ns(ctx, mir, rid="R07.7")
+
     ctx.not_decided += ["that the composition of arbitrary operation scripts equals the reference edit (run-time)"]
     return ("API-to-mutation mapping read from the expanded syntax tree (28 token methods cross-checked as siblings and against the documented table, "
             "9 Element operations), serialisation order of mutated tokens, transfer of element-level end-tag edits, and the emission gate for removed content.")
